@@ -35,7 +35,7 @@ SHARD_TIMEOUT = {"quick": 600, "thorough": 3000}
 
 
 def plan(tier, seed):
-    shards = pwork.plan(tier, seed, want=("gen", "uses", "meta", "long"),
+    shards = pwork.plan(tier, seed, want=("gen", "uses", "meta", "long", "mut"),
                         scale=2.0 if tier == "quick" else 3.0)
     for s in shards:
         if s["w"] == "gen":
